@@ -307,10 +307,10 @@ Qed.
 (* shape shared by all steps that are not query steps *)
 Lemma gi_flush_create s blocks :
   GI s -> nodupn (concat blocks) = true -> disjn (concat blocks) (s_ingested s) = true ->
-  GI (mkM (s_files s ++ [mkFile blocks false]) (s_meta s) (s_pending s ++ [length (s_files s)]) (s_commit s)
+  GI (mkM (s_files s ++ [mkFile blocks false false]) (s_meta s) (s_pending s ++ [length (s_files s)]) (s_commit s)
           (s_acked s) (s_ingested s ++ concat blocks) (s_merge s) (s_queries s)).
 Proof.
-  intros G Hn Hd. set (fs' := s_files s ++ [mkFile blocks false]).
+  intros G Hn Hd. set (fs' := s_files s ++ [mkFile blocks false false]).
   assert (Hf : fext (s_files s) fs') by apply fext_app.
   assert (Hlen : length fs' = S (length (s_files s))) by (unfold fs'; rewrite app_length; simpl; lia).
   assert (Hold : rows_l fs' (s_meta s ++ s_pending s) = rows_l (s_files s) (s_meta s ++ s_pending s))
@@ -545,7 +545,7 @@ Proof.
     + right; reflexivity.
   - (* LMCreate *) ifs H. split_and E0.
     destruct (gi_merge _ G m E) as [M1 [M2 [M3 M4]]].
-    set (fs' := s_files s ++ [mkFile blocks false]).
+    set (fs' := s_files s ++ [mkFile blocks false false]).
     assert (Hf : fext (s_files s) fs') by apply fext_app.
     assert (Hnew : frows_l fs' (length (s_files s)) = concat blocks) by (unfold fs'; rewrite frows_new; reflexivity).
     assert (Hsrc : rows_l fs' (m_srcs m) = rows_l (s_files s) (m_srcs m)) by (apply rows_ext; assumption).
